@@ -9,17 +9,28 @@
      extract_loop_block             blocks.py:~700-~1010
      extract_join_choice_block      blocks.py:~1010-end
 
-   VERSION.  The model carries a flag `fixed : bool`.
-     fixed = false : the code of /repo as of commit 45ce265 (legacy `<<if x` / `<<elif x` headers whose
-                     regex does not match leave the Python local `condition` unassigned: UnboundLocalError
-                     at the opener, silent reuse of the previous branch's condition at `<<elif`).
-     fixed = true  : /repo + proposed_fixes/F11a-legacy-if-unclosed.diff (both sites raise SyntaxError).
-   and a nesting cap `cap : option nat`:
+   VERSION.  The unsuffixed names follow /repo as of commit 623c615.  Two parameters keep the
+   earlier code expressible (for the `_refuted` witnesses of Props/C11b.v and for checking an
+   unpatched copy):
+     fixed = false : extract_conditional_block as of commit 45ce265:
+                     * legacy `<<if x` / `<<elif x` headers whose regex does not match leave the Python
+                       local `condition` unassigned (UnboundLocalError at the opener, silent reuse of the
+                       previous branch's condition at `<<elif`);
+                     * the text lines pending before a directive / block / jump / choice inside a branch
+                       are flushed WITHOUT looking at the glue operator (only the flush at
+                       @elif/@else/@endif honours `<>`).
+                     * extract_loop_block dedents its raw body as collected (a leading comment line
+                       decides the base indentation).
+     fixed = true  : commits 2da11ec (= proposed_fixes/F11a-legacy-if-unclosed.diff: both header sites
+                     raise SyntaxError), b0767bb (every flush goes through _append_text_lines, which
+                     honours `<>`) and 623c615 (comment lines at the head of a loop body are dropped
+                     before the body is dedented).
      cap = None      : no limit on block nesting (the interpreter's recursion limit, which is outside
                        the model, is what stops a 1000-deep input: RecursionError, F11b)
-     cap = Some 100  : /repo + proposed_fixes/F11b-block-depth-limit.diff (SyntaxError beyond 100 levels)
-   `extract_*` (no suffix) are the (true, Some 100) instances = /repo with both diffs applied;
-   `extract_*_a` = F11a only; `extract_*_cur` = the unpatched code.
+     cap = Some 100  : commit 179a3c4 (= proposed_fixes/F11b-block-depth-limit.diff: SyntaxError beyond
+                       MAX_BLOCK_DEPTH = 100 levels)
+   `extract_*` (no suffix) = (true, Some 100) = current /repo; `extract_*_cur` = (false, None) =
+   45ce265; `extract_*_a` = (true, None) = current /repo without the nesting cap.
 
    Every partial Python operation is an explicit outcome (ParseBase.pres):
      lines[start_index]            -> PInternal IIndex when start >= len(lines)
@@ -293,11 +304,11 @@ Definition extract_python_block (lines : list string) (start : nat) : pres (stri
 (* shared pieces of the conditional and loop extractors                                         *)
 (* ------------------------------------------------------------------------------------------- *)
 Section WithLinefns.
-Variable fixed : bool.            (* F11a applied *)
+Variable fixed : bool.            (* 2da11ec (F11a), b0767bb (glue on every flush), 623c615 applied *)
 Variable cap : option nat.        (* F11b applied: Some MAX_BLOCK_DEPTH *)
 Variable lf : linefns.
 
-(* the flush used before directives/blocks/jumps/choices: every dedented line, newline after each,
+(* the flush used before directives/blocks/jumps/choices UNTIL commit b0767bb: every dedented line, newline after each,
    glue NOT looked at *)
 Fixpoint flush_plain_lines (content : list token) (ded : list string) : pres (list token) :=
   match ded with
@@ -310,8 +321,8 @@ Fixpoint flush_plain_lines (content : list token) (ded : list string) : pres (li
 Definition flush_plain (content : list token) (ls : list string) : pres (list token) :=
   flush_plain_lines content (detect_and_strip_indentation ls).
 
-(* the flush used when a branch is finalised (@elif / @else / @endif) and for loop content lines:
-   glue honoured *)
+(* _append_text_lines, and the inlined flush when a branch is finalised (@elif / @else / @endif);
+   content_line_glue is also the treatment of loop content lines: glue honoured *)
 Definition content_line_glue (content : list token) (l : string) : pres (list token) :=
   match glue_split l with
   | Some cl => let* toks := lf_content lf cl in POk (content ++ toks)
@@ -371,11 +382,14 @@ Inductive cstep :=
 Definition has_cur (st : cstate) : bool :=
   match cs_cur st with Some _ => true | None => false end.
 
-(* `if current_branch_lines: dedent, parse each line + "\n"; current_branch_lines = []` *)
+(* `if current_branch_lines: _append_text_lines(current_branch, current_branch_lines, filename);
+   current_branch_lines = []` - _append_text_lines honours the glue operator (b0767bb); before that
+   commit the ten inlined copies of this flush did not *)
 Definition flush_cur (st : cstate) : pres cstate :=
   match cs_cur st with
   | Some (c, content, chs) =>
-      let* content' := flush_plain content (cs_lines st) in
+      let* content' := (if fixed then flush_glue content (cs_lines st)
+                        else flush_plain content (cs_lines st)) in
       POk (mkCstate (cs_branches st) (Some (c, content', chs)) [] (cs_condvar st))
   | None => POk st
   end.
@@ -644,10 +658,26 @@ Fixpoint body_go (ded : list string) (rest : list string) (j skip : nat)
       end
   end.
 
+(* commit 623c615: among the leading run of blank-or-comment lines of loop_raw_lines the comment lines
+   are deleted (the blank ones stay), so that a comment cannot decide the base indentation:
+     first = 0
+     while first < len(raw): s = raw[first].strip()
+        if s.startswith("#"): del raw[first]   elif not s: first += 1   else: break *)
+Fixpoint drop_leading_comments (raw : list string) : list string :=
+  match raw with
+  | [] => []
+  | l :: r =>
+      let s := strip l in
+      if startswith s "#" then drop_leading_comments r
+      else if negb (nonempty s) then l :: drop_leading_comments r
+      else raw
+  end.
+
 Definition loop_body (lines : list string) (start : nat) : pres (token * nat) :=
   let* r := loop_collect start (skipn start lines) start false 0%Z [] "" "" in
   let '(found, i, raw, var, coll) := r in
-  let ded := detect_and_strip_indentation raw in            (* `if loop_raw_lines:` - [] gives [] *)
+  (* `if loop_raw_lines:` - [] gives [] *)
+  let ded := detect_and_strip_indentation (if fixed then drop_leading_comments raw else raw) in
   let* cc := body_go ded ded 0 0 [] [] in
   if found then POk (TLoop var coll (fst cc) (snd cc), i - start)
   else PDiag (DSyntax "for-unclosed" start).
@@ -746,10 +776,10 @@ End WithLinefns.
 
 (* the versions *)
 Definition max_block_depth : nat := 100.
-(* /repo + F11a + F11b : what this file's unsuffixed names stand for *)
+(* /repo as of 623c615 : what this file's unsuffixed names stand for *)
 Definition extract_conditional_block := extract_conditional_block_v true (Some max_block_depth).
 Definition extract_loop_block := extract_loop_block_v true (Some max_block_depth).
-(* /repo + F11a only *)
+(* /repo as of 623c615 without the nesting cap of 179a3c4 *)
 Definition extract_conditional_block_a := extract_conditional_block_v true None.
 Definition extract_loop_block_a := extract_loop_block_v true None.
 (* /repo as of 45ce265 *)
